@@ -1,6 +1,6 @@
 SPECIFICATION Spec
 CONSTANTS
-  Sizes = {2, 4, 6, 8, 10, 12}
+  Sizes = {2, 4, 6, 8, 10, 12, 26}
   Emit = TRUE
 INVARIANT DCRemoved
 INVARIANT Stationary
